@@ -48,6 +48,9 @@ class C04(Check):
 
     def cases(self, tier):
         yield from families.standard(tier)
+        eq = [{'rule': 'meek', 'arithmetic': 'fixed', 'precision': 4}, {'rule': 'warren', 'arithmetic': 'rational', 'omega': 3}, {'rule': 'meek'},
+              {'rule': 'warren', 'arithmetic': 'fixed', 'precision': 2}]
+        yield from families.seats_ties(3, spaces.Q(3, 0, 3), ties='id', cfgs=eq)       # equal-rank first preferences (meek / warren)
         D = configs.DEFAULTS
         if tier == 'quick':
             yield from families.seats_ties(3, spaces.W(3, 3, 3, (2, 3, 5)), seats=(1, 2), ties='id',
@@ -99,10 +102,13 @@ class C04(Check):
                         inscope = s.tag in ('begin', 'tie') or (s.tag == 'elect' and s.msg.startswith('Elect: ')) or \
                             (s.tag == 'defeat' and not s.msg.startswith('Defeat remaining'))
                     else:
-                        inscope = s.tag == 'iterate' or (s.tag == 'elect' and s.msg.startswith('Elect: ')) or \
-                            (s.tag == 'begin' and not t.E.ballotsEqual)
+                        inscope = s.tag == 'iterate' or (s.tag == 'elect' and s.msg.startswith('Elect: '))
                     if inscope:
                         want = quota_model(t, cfg, sum(s.vote.values()), seats)
+                    elif s.tag == 'begin':
+                        # before the first distribution the quota is the one of the ballots cast (equal-rank first preferences may credit
+                        # a hair less than one vote per ballot under truncating arithmetic; the initial quota does not depend on that)
+                        want = quota_model(t, cfg, B, seats)
                 elif t.method == 'qpq':
                     if s.tag in ('begin', 'tie') or (s.tag == 'elect' and s.msg.startswith('Elect high')) or \
                             (s.tag == 'defeat' and s.msg.startswith('Defeat low')):
